@@ -143,7 +143,7 @@ fn fold(r: &mut Rng, h: &P) -> Mor {
 }
 
 fn perturb(r: &mut Rng, m: &mut Mor) -> &'static str {
-    match r.below(9) {
+    match r.below(11) {
         0 if !m.w.0.is_empty() && m.w.1 > 1 => {
             let k = r.below(m.w.0.len());
             m.w.0[k] = (m.w.0[k] + 1 + r.below(m.w.1 - 1)) % m.w.1;
@@ -193,6 +193,26 @@ fn perturb(r: &mut Rng, m: &mut Mor) -> &'static str {
         8 if !m.w.0.is_empty() => {
             m.w.0.pop();
             "w_domain_too_small"
+        }
+        9 => {
+            // move the last source of one hyperedge to the front of the next one: the concatenated
+            // incidence array is unchanged, only the per-hyperedge boundaries move
+            for k in 0..m.g.e.len().saturating_sub(1) {
+                if let Some(v) = m.g.e[k].s.pop() {
+                    m.g.e[k + 1].s.insert(0, v);
+                    return "source_segment_boundary_shifted";
+                }
+            }
+            "unperturbed"
+        }
+        10 => {
+            for k in 0..m.g.e.len().saturating_sub(1) {
+                if let Some(v) = m.g.e[k].t.pop() {
+                    m.g.e[k + 1].t.insert(0, v);
+                    return "target_segment_boundary_shifted";
+                }
+            }
+            "unperturbed"
         }
         _ => "unperturbed",
     }
@@ -290,7 +310,7 @@ impl Monitor for C18 {
         "cases: hostile corpus (empty subgraph, full subgraph, shortcut through an outside edge, path leaving and re-entering through two outside edges, selected nodes downstream only, \
          inside cycle next to incidences of multiplicity 4, node on an outside cycle, empty target, nodes untouched by edges) then seeded (a) natural arrows: inclusions of sub-hypergraphs \
          with shuffled node/edge order and non-injective folds of two copies, (b) each single perturbation of a natural arrow (one entry of either map, one node or edge label, two swapped \
-         sources or targets, codomain of either map off by one, domain of the node map too small), (c) random junk maps. Oracle: the set of naturality conditions {W,X,S,T} that fail on the \
+         sources or targets, a per-hyperedge segment boundary shifted with the flat incidence array unchanged, codomain of either map off by one, domain of the node map too small), (c) random junk maps. Oracle: the set of naturality conditions {W,X,S,T} that fail on the \
          plain model; Ok iff the set is empty; an Err must name a member of the set (type-mismatch variants only when the codomain really is wrong); monomorphism = both tables injective; \
          convexity = monomorphism and exhaustive search over (node, used-an-outside-edge) states finds no image node reachable from an image node through an outside edge. \
          non-trivial = target with >=2 hyperedges; distinct = hash of (source, target, maps)."
@@ -314,6 +334,8 @@ impl Monitor for C18 {
             ("class:empty_subgraph", 1),
             ("class:full_subgraph", 1),
             ("class:leaves_and_reenters_through_two_outside_edges", 1),
+            ("class:source_segment_boundary_shifted", 30),
+            ("class:target_segment_boundary_shifted", 30),
         ]
     }
     fn run_case(&self, idx: u64, r: &mut Rng, ctx: &mut Ctx) {
